@@ -286,6 +286,11 @@ func (f *ProofFollower) step(op followOp) {
 	}
 }
 
+// Follow refreshes every held element with the update and starts holding the store's elements it does not hold yet.
+func (f *ProofFollower) Follow(au consensus.ApplyUpdate, numLeaves uint64, st *Store) {
+	f.step(followOp{au: &au, numLeaves: numLeaves, track: st.StateElements()})
+}
+
 // Followers is a leading follower and its lagging twin.
 type Followers struct {
 	Lead, Lag *ProofFollower
